@@ -309,6 +309,20 @@ def tte_tables(lib):
         fs = [k for k in lib.ithir if k.endswith('FromStr>::from_str') and 'TruthTableEntry' in k]
         if not fs: return None
         ft = lib.ithir[fs[0]]
+        # (i) one match on the text: `match s { "true" | "True" | .. => Some(Self::True), .. }` in from_str or a helper of the type
+        TT_ = 'rsbdd::truth_table::TruthTableEntry'
+        for hname, ht in sorted(lib.ithir.items()):
+            if not (hname.startswith(TT_ + '::') or hname == fs[0]) or '{closure' in hname: continue
+            for m in walk(ht['body']):
+                if m['k'] != 'Match' or not any(const_str(p) is not None for a in m['arms'] for p in flat_pats(a['pat'])): continue
+                tab = {}
+                for a in m['arms']:
+                    strs = [const_str(p) for p in flat_pats(a['pat'])]
+                    vs = [x['variant'] for x in walk(a['body']) if x['k'] == 'Adt' and canon(x['adt']) == TT_]
+                    if all(s_ is not None for s_ in strs) and len(set(vs)) == 1:
+                        tab.setdefault(vs[0], set()).update(strs)
+                if tab and (hname == fs[0] or any(x['k'] == 'Call' and callee_name(x) == hname for x in walk(ft['body']))):
+                    return tab
         bodies = [ft['body']] + [lib.ithir[canon(x['def'])]['body'] for x in walk(ft['body']) if x['k'] == 'Closure' and canon(x['def']) in lib.ithir]
         cname, rows = const_pair_table(lib, ft['body'])
         uses_contains = any(x['k'] == 'Call' and (callee_name(x) or '').endswith('::contains') for b in bodies for x in walk(b))
